@@ -61,6 +61,7 @@ def all(N, which=None):
 
     if which is None:
         which = list(range(N))
+    which = [int(w) % N for w in which]  # Negative positions count from the end (they were silently ignored)
 
     cores = []
     for n in range(N):
@@ -83,6 +84,7 @@ def none(N, which=None):
 
     if which is None:
         which = list(range(N))
+    which = [int(w) % N for w in which]  # Negative positions count from the end (they were silently ignored)
 
     cores = []
     for n in range(N):
